@@ -242,7 +242,9 @@ func TestC04_Grammar(t *testing.T) {
 		}
 		c.Label("in/" + mut)
 		if pr.Tokens >= 6 && (mut != "none" || strings.ContainsAny(text, "\\\n\t×÷−(") || strings.Contains(text, "let ")) {
-			c.NonTrivial(text+"\x00"+doc.JSON(), func() any { return map[string]any{"expr": text, "verdict": "IN", "mutation": mut, "outcome": describe(res)} })
+			c.NonTrivial(text+"\x00"+doc.JSON(), func() any {
+				return map[string]any{"expr": text, "verdict": "IN", "mutation": mut, "outcome": describe(res)}
+			})
 		}
 	})
 }
